@@ -104,7 +104,7 @@ def expected_records(it: Interner, sp: dict) -> dict:
 class Recorder:
     def __init__(self, sc: dict) -> None:
         self.sc = sc
-        self.it = Interner()
+        self.it = sc.get('_interner') or Interner()
         self.net = simnet.Net(seed=sc.get('seed', 0), rand=sc.get('rand'), record_bytes=False)
         self.events: List[dict] = []
         self._keys: List[tuple] = []
@@ -118,6 +118,9 @@ class Recorder:
         self.pending_tasks: List[Any] = []
         self.closed = False
         self.bg: List[Any] = []
+        self.browsers: List[Any] = []
+        self.inj_count = 0
+        self.dup_log: List[dict] = []
 
     def ev(self, _ev: str, **kw: Any) -> dict:
         if getattr(self, 'stopped', False):
@@ -236,6 +239,57 @@ class Recorder:
             self.closed = True
             self.ev('api_ret', op='close', ok=True)
 
+    # ------------------------------------------------------------ duplication (C16), browser, listener
+    def dup_factor(self, data: bytes) -> int:
+        """2 when this injected datagram is to be delivered twice back to back (scenario key 'dup': 'all' or an index)."""
+        self.inj_count += 1
+        mode = self.sc.get('dup')
+        if mode == 'all' or mode == self.inj_count:
+            try:
+                m = wire.parse(data)
+                qu = (not m.is_response) and any(q.cls & 0x8000 for q in m.questions)
+            except wire.WireError:
+                qu = False
+            self.dup_log.append({'t': self.net.now(), 'qu': qu, 'n': self.inj_count})
+            return 2
+        return 1
+
+    def build_response(self, st: dict) -> bytes:
+        ans = []
+        for r in st['recs']:
+            ans.append((r['rec'][0], r['rec'][1], r['rec'][2] | (0x8000 if r.get('fl') else 0), r['ttl'], self._rd(r['rec'])))
+        return wire.build(flags=0x8400, answers=ans)
+
+    def start_browser(self, st: dict) -> None:
+        from zeroconf import ServiceListener
+        from zeroconf.asyncio import AsyncServiceBrowser
+        rec = self
+
+        class BL(ServiceListener):
+            def add_service(self, zc: Any, type_: str, name: str) -> None:
+                rec.ev('cb', kind='add', ty=rec.it.nb(type_), name=rec.it.nb(name))
+
+            def remove_service(self, zc: Any, type_: str, name: str) -> None:
+                rec.ev('cb', kind='rem', ty=rec.it.nb(type_), name=rec.it.nb(name))
+
+            def update_service(self, zc: Any, type_: str, name: str) -> None:
+                rec.ev('cb', kind='upd', ty=rec.it.nb(type_), name=rec.it.nb(name))
+        self.ev('bstart', types=[self.it.nb(t) for t in st['types']])
+        self.browsers.append(AsyncServiceBrowser(self.host.zc, list(st['types']), listener=BL(), delay=st.get('delay', 10000)))
+
+    def add_listener(self) -> None:
+        from zeroconf import RecordUpdateListener
+        rec = self
+
+        class L(RecordUpdateListener):
+            def async_update_records(self, zc: Any, now: float, records: list) -> None:
+                if records:
+                    rec.ev('lcall', n=len(records))
+
+            def async_update_records_complete(self) -> None:
+                pass
+        self.host.zc.async_add_listener(L(), None)
+
     def build_query(self, st: dict) -> bytes:
         qs = []
         for q in st['qs']:
@@ -274,8 +328,17 @@ class Recorder:
                     continue
                 data = self.build_query(st)
                 src = st.get('src', '10.0.0.9')
-                for _ in range(st.get('copies', 1)):
+                for _ in range(st.get('copies', 1) * self.dup_factor(data)):
                     self.host.inject(data, src=src, port=st.get('port', 5353), sock=st.get('sock', 0), tag=st.get('tag'))
+            elif op == 'resp':
+                if not self.closed:
+                    data = self.build_response(st)
+                    for _ in range(self.dup_factor(data)):
+                        self.host.inject(data, src=st.get('src', '10.0.0.44'), tag='resp')
+            elif op == 'bstart':
+                self.start_browser(st)
+            elif op == 'ladd':
+                self.add_listener()
             elif op == 'conflict':
                 if not self.closed:
                     sp = st['svc']
@@ -300,6 +363,8 @@ class Recorder:
                 await fut
         self.ev('end')
         self.stopped = True
+        for b in self.browsers:
+            await b.async_cancel()
         if not self.closed:
             await self.host.aiozc.async_close()
 
@@ -322,7 +387,7 @@ class Recorder:
         if self.net.aborted:
             merged = merged[:400] + [{'ev': 'exc', 't': merged[min(len(merged), 400) - 1]['t'] if merged else 0, 'what': 'Runaway',
                                       'msg': self.net.aborted[:200]}]
-        return {'id': self.sc['id'], 'events': merged, 'recs': self.it.table, 'names': len(self.it.names),
+        return {'id': self.sc['id'], 'events': merged, 'dups': self.dup_log, 'recs': self.it.table, 'names': len(self.it.names),
                 'enum_nb': self.it.nb(ENUM)}
 
 
